@@ -143,9 +143,13 @@ DomCoords(I, st) == IF I.family = "knapsack" THEN <<st.x[1]>> ELSE [i \in 1..I.b
 DomKey(I, st) == IF I.dom = "keyed" THEN PopCount(I, Q(I, st)) % 2 ELSE 0
 
 \* ---- well-formedness (hypotheses of the properties), evaluated on every instance before anything else
+StateCode(I, q) == IF I.family = "knapsack" THEN q ELSE FoldSet(LAMBDA e, acc : acc + 2 ^ (e - 1), 0, q)     \* the harness' bit mask / capacity
 RubOf(I, HT, depth, q) ==
   CASE I.rub = "none" -> PosInf
     [] I.rub = "exact" -> IF IsNegInf(HStar(I, HT, depth, q)) THEN -1000 ELSE HStar(I, HT, depth, q)
+    \* "noisy": a state-dependent slack in 0..I.slack -- the bound is admissible but not monotone in the value of the node
+    [] I.rub = "noisy" -> (IF IsNegInf(HStar(I, HT, depth, q)) THEN -1000 ELSE HStar(I, HT, depth, q))
+                          + ((7 * (IF I.with_depth THEN depth ELSE 0) + 13 * StateCode(I, q)) % (I.slack + 1))
     [] OTHER -> IF IsNegInf(HStar(I, HT, depth, q)) THEN -1000 + I.slack ELSE HStar(I, HT, depth, q) + I.slack
 \* merge over-approximates: for these families HStar is monotone in q (subset order / capacity order)
 Leq(I, q1, q2) == IF I.family = "knapsack" THEN q1 <= q2 ELSE q1 \subseteq q2
